@@ -52,8 +52,7 @@ Print Assumptions C10_no_lost_wakeup_in_every_factory.
    with distinct tokens (e.g. empty), after its call on the space side none of the other tokens is waiting
    or granted on its edge any more, and the call has not planted a token anywhere
    (theories/Factory/FactoryWithdraw.v over the unconditional token invariant of theories/Stores/StoreBTok.v).
-   The retrieval side is not covered: cancelling a granted retrieval is only guaranteed to remove it when
-   its item is still available, which needs the conditional store invariant. *)
+   The retrieval side follows below (C10_commit_withdraws_other_retrieval_requests). *)
 From FV Require StoreBTok FactoryWithdraw.
 Theorem C10_commit_withdraws_other_space_requests :
   forall nodes edges order n, Forall (fun ed => StoreBTok.TokB (World.est ed)) edges ->
@@ -76,3 +75,32 @@ Print Assumptions C10_token_invariant_unconditional.
 
 Example C10_fresh_edge_tokens_ok : forall k m c, StoreBTok.TokB (StoreB.init k m c).
 Proof. exact StoreBTok.init_tokb. Qed.
+
+(* The retrieval side of the same statement: a node that takes its item from one in-edge withdraws the retrieval
+   requests it issued on the others.  The store refuses to cancel a granted retrieval whose item is no longer there (an
+   unhandled exception in the real classes, a crash of the model), so the statement is: at every reachable world of every
+   configuration, after the helper's call on the retrieval side -- unless the run has crashed -- none of the other
+   tokens is waiting or granted on its edge, and the call has planted no token anywhere
+   (theories/Factory/FactoryWithdraw.v over the unconditional token invariant of theories/Stores/StoreBTokG.v). *)
+From FV Require StoreBTokG.
+Theorem C10_commit_withdraws_other_retrieval_requests :
+  forall nodes edges order n, Forall (fun ed => StoreBTokG.TokG (World.est ed)) edges ->
+  let w := FactoryInv.iter_fstep n (Factory.mk_world nodes edges order) in
+  forall es ts keep, (forall e, In e es -> (e < length (World.wedges w))%nat) ->
+    let w' := Factory.cancel_others w es ts keep false in
+    (World.wcrash w' = None -> forall e t, In (e, t) (combine es ts) -> t <> keep -> ~ FactoryWithdraw.GTw w' e t) /\
+    (forall e t, ~ FactoryWithdraw.GTw w e t -> ~ FactoryWithdraw.GTw w' e t).
+Proof. exact FactoryWithdraw.commit_withdraws_other_retrieval_requests. Qed.
+Print Assumptions C10_commit_withdraws_other_retrieval_requests.
+
+Theorem C10_cancelled_retrieval_request_is_gone :
+  forall s t s' ts, StoreBTokG.TokG s -> StoreB.step s (StoreB.CGet t) = (s', StoreB.OOk, ts) -> ~ StoreBTokG.GT s' t.
+Proof. exact StoreBTokG.cget_absent. Qed.
+Print Assumptions C10_cancelled_retrieval_request_is_gone.
+
+Theorem C10_retrieval_token_invariant_unconditional : forall s o, StoreBTokG.TokG s -> StoreBTokG.TokG (StoreB.step_st s o).
+Proof. exact StoreBTokG.tokg_step. Qed.
+Print Assumptions C10_retrieval_token_invariant_unconditional.
+
+Example C10_fresh_edge_retrieval_tokens_ok : forall k m c, StoreBTokG.TokG (StoreB.init k m c).
+Proof. exact StoreBTokG.init_tokg. Qed.
